@@ -212,9 +212,24 @@ def Look.isHaystackAnchor : Look → Bool
   | .Start | .End => true
   | _ => false
 
-/-- `ConfiguredHIR::line_terminator` -/
+def Look.isCrlfAnchor : Look → Bool
+  | .StartCRLF | .EndCRLF => true
+  | _ => false
+
+/-- `ConfiguredHIR::line_terminator`: withheld for haystack anchors, and for CRLF-aware line anchors
+when `crlf` is off (they see the `\n` behind a trailing `\r` in a buffer but not on the line). -/
 def Config.lineTerminatorOf (cfg : Config) (h : Hir) : Option LineTerm :=
-  if anyLook Look.isHaystackAnchor h then none else cfg.lineTerm
+  if anyLook Look.isHaystackAnchor h || (anyLook Look.isCrlfAnchor h && !cfg.crlf) then none else cfg.lineTerm
+
+/-- the line anchors of the configured terminator itself (`crlf` on: `StartCRLF`/`EndCRLF`, else
+`StartLF`/`EndLF`) -/
+def Config.isOwnAnchor (cfg : Config) : Look → Bool
+  | .StartCRLF | .EndCRLF => cfg.crlf
+  | .StartLF | .EndLF => !cfg.crlf
+  | _ => false
+
+/-- `verify_on_line` of `build_many`: the look set contains a look other than the own line anchors -/
+def Config.verifyOnLine (cfg : Config) (h : Hir) : Bool := anyLook (fun k => !cfg.isOwnAnchor k) h
 
 /-! ### the matcher -/
 
@@ -227,6 +242,8 @@ structure MatcherM where
   nonMatching : List Nat
   /-- literals of `fast_line_regex` (`none`: no fast regex) -/
   fastLits : Option (List Lit)
+  /-- `verify_on_line`: buffer matches are only candidates, the searcher re-checks the line alone -/
+  verifyOnLine : Bool := false
   deriving Inhabited
 
 /-- `InnerLiterals::new(..).one_regex()`: the literal alternatives, if any.
@@ -250,10 +267,11 @@ def Config.build (cfg : Config) (pats : List Bytes) (translated : Hir) (accelera
     .ok { hir := h
         , lineTerm := cfg.lineTerminatorOf h
         , nonMatching := nonMatching h
-        , fastLits := fastLiterals cfg accelerated h (optimize (extract h).seq) }
+        , fastLits := fastLiterals cfg accelerated h (optimize (extract h).seq)
+        , verifyOnLine := cfg.verifyOnLine h }
 
-/-- `Matcher::find_candidate_line`: `Candidate(i)` from the literal search, else `Confirmed(i)` from
-`shortest_match` (the engine; `confirmed` is its answer). -/
+/-- `Matcher::find_candidate_line`: `Candidate(i)` from the literal search; without a literal regex the end
+of the engine's `shortest_match`, as `Candidate(i)` when `verify_on_line` is set, else `Confirmed(i)`. -/
 inductive Cand where
   | candidate (i : Nat)
   | confirmed (i : Nat)
@@ -266,6 +284,6 @@ def Cand.offset : Cand → Nat
 def MatcherM.findCandidateLine (m : MatcherM) (shortest : Bytes → Option Nat) (hay : Bytes) : Option Cand :=
   match m.fastLits with
   | some L => (fastFind L hay).map .candidate
-  | none => (shortest hay).map .confirmed
+  | none => if m.verifyOnLine then (shortest hay).map .candidate else (shortest hay).map .confirmed
 
 end RgVerif.Rx
